@@ -348,6 +348,8 @@ func checkReuse(sp *spec, earlier, data, canon []nv, relation string) (sorts int
 				class = "all-weekday"
 			case "month-same-position":
 				class = "all-month"
+			case "date-same-instant":
+				class = "all-date-same-layout"
 			}
 			f = failf("C13/"+level+"/order-depends-on-earlier-sort/"+sigClass(class),
 				"sort %q: a sorter instance that first sorted %s (%s) sorts %s to %q; a fresh instance sorts every permutation of it to %q", sp.name, show(earlier), relation, show(in), names(out), names(canon))
